@@ -41,6 +41,13 @@ pub mod unit {
     }
 
     pub fn mc_as_string(value: &str) -> GDResult<Vec<u8>> { crate::games::minecraft::as_string(value) }
+
+    /// GameSpy 1 / 3 password flag helper (crate-private `gamespy::common`).
+    pub fn gamespy_has_password(
+        server_vars: &mut crate::verif_hook::collections::HashMap<String, String>,
+    ) -> GDResult<bool> {
+        crate::protocols::gamespy::common::has_password(server_vars)
+    }
 }
 
 /// Model of the diagnostic payload of `GDError`: carries nothing, drops
